@@ -8,7 +8,7 @@ from ..core import Prop, blit, guarded, listlit, optlit, qlit, strlit, zlit
 from .. import geomgen as G
 
 U = lambda k: uuidlib.UUID(int=15000 + k)
-LABELS = ["a", "b", "song", "__empty__", "x:y", "none", ""]
+LABELS = ["a", "b", "song", "__empty__", "x:y", "none", "", "b ", " c", " d ", "song type 1", "  "]  # labels are kept verbatim, blanks included
 KEYS = ["species", "call", "crowsetta", "k"]
 TERMS = [("dwc:sp", "species"), ("se:call", "call"), ("se:other", "other")]
 
